@@ -1,20 +1,9 @@
 /-
   Lexer and line-parser facts for the EBLIF model.
 -/
-import Spydr.Eblif.Model
+import Spydr.Eblif.Spec
 
 namespace Spydr.Eblif
-
-/-- a word the printer can emit and the lexer reads back: non-empty, no blank, no newline -/
-def GoodWord (s : String) : Prop :=
-  s.toList ≠ [] ∧ ∀ c ∈ s.toList, isWs c = false ∧ c ≠ '\n'
-
-def GoodTok : Tok → Prop
-  | Tok.word s => GoodWord s
-  | Tok.nl => True
-
-/-- the token list is empty or ends with a line end -/
-def Terminated (ts : List Tok) : Prop := ∀ t, ts.getLast? = some t → t = Tok.nl
 
 theorem lexGo_word (w : List Char) (hw : ∀ c ∈ w, isWs c = false ∧ c ≠ '\n') :
     ∀ (cur : List Char) (d : Bool) (rest : List Char),
